@@ -20,7 +20,27 @@ def tables(stock):
 
 
 def run_case(desc):
+    out = run_once(desc, dict(desc["cfg"]), None)
     cfg = dict(desc["cfg"])
+    if cfg.get("reprm") and desc.get("shared_model"):
+        # the same LifetimeModel object is re-parameterised and used for another round trip
+        U = sg.universe_of(cfg)
+        shared = sg.build_lifetime(U, cfg["lt"])
+        first = sg.build_stock(dict(cfg, cls="sdsm_manual"), lifetime=shared)
+        if sg.first_interval_survival(first) >= 0.05 and sg.cond_inf(first) <= 1e8:
+            first.compute()
+            shared.set_prms(**{k: sg.build_prm(U, p) for k, p in cfg["reprm"].items()})
+            cfg2 = dict(cfg, lt=dict(cfg["lt"], prms=cfg["reprm"]))
+            cfg2.pop("reprm", None)
+            try:
+                run_once(dict(desc, shared_model=True), cfg2, shared)
+                out["classes"].append("re-parameterised-shared-model")
+            except Discard:
+                pass
+    return out
+
+
+def run_once(desc, cfg, preset_shared):
     direction = desc["direction"]
     gk = sg.grid_kind(cfg["grid"])
     dt = np.array(sg.documented_dt(cfg["grid"]))
@@ -39,7 +59,7 @@ def run_case(desc):
     if direction == "forward":
         drv = np.abs(sg.driver_values(cfg))  # non-negative inflow
         # "with the same lifetime model": optionally one shared LifetimeModel object for all three stocks
-        shared = sg.build_lifetime(sg.universe_of(cfg), cfg["lt"]) if desc.get("shared_model") else None
+        shared = preset_shared if preset_shared is not None else (sg.build_lifetime(sg.universe_of(cfg), cfg["lt"]) if desc.get("shared_model") else None)
         if shared is not None:
             cl.append("shared-lifetime-model-object")
         a = sg.build_stock(dict(cfg, cls="idsm"), driver=drv, lifetime=shared)
@@ -59,7 +79,7 @@ def run_case(desc):
         nontrivial = gk != "unit" or sg.lt_varies(cfg["lt"])
     else:
         res = {}
-        shared = sg.build_lifetime(sg.universe_of(cfg), cfg["lt"]) if desc.get("shared_model") else None
+        shared = preset_shared if preset_shared is not None else (sg.build_lifetime(sg.universe_of(cfg), cfg["lt"]) if desc.get("shared_model") else None)
         if shared is not None:
             cl.append("shared-lifetime-model-object")
         prescribed = sg.driver_values(cfg)
